@@ -1998,6 +1998,16 @@ def c06_consumer(rng, shape):
         return head + "\tvar arr [4]int\n\tq := &arr[0]\n\tj := 0\n\tfor *q = range %s {\n\t\tj++\n\t\tif j >= 4 {\n\t\t\tbreak\n\t\t}\n\t\tq = &arr[j]\n\t}\n\tfor _, d := range arr {\n\t\trt.Emit(49, d)\n\t\tt = (t << 1) ^ d\n\t}\n" % fin + tail
     if shape == "assign_to_map_entry_moving_key":
         return head + "\tm := map[int]int{}\n\tk := 0\n\tfor m[k] = range %s {\n\t\tk++\n\t\tif k >= 3 {\n\t\t\tbreak\n\t\t}\n\t}\n\tfor q := 0; q < 3; q++ {\n\t\trt.Emit(49, m[q])\n\t\tt = (t << 1) ^ m[q]\n\t}\n" % fin + tail
+    if shape == "consumer_generator_switch":
+        # a generator that consumes another iterator: range over an Iter with switch / continue / break around yields
+        return ("func CG@(a, n int, g1, g2 bool) (_ Iter[int]) {\n\tfor v := range GA@(a, n) {\n\t\tswitch {\n\t\tcase v&1 == 1:\n\t\t\tYield(v)\n\t\t\tcontinue\n\t\tcase g1:\n\t\t\tYield(v + 1)\n\t\t\tif g2 {\n\t\t\t\tbreak\n\t\t\t}\n\t\t\tYield(v + 2)\n\t\t}\n\t\tYield(v + 3)\n\t}\n\treturn\n}\n\n" +
+                "func CP@(b, n int, g1 bool) (_ Iter[int]) {\n\tit := GA@(b, n)\n\tfor ; it.MoveNext(); Yield(0) {\n\t\tv := it.Current()\n\t\tif v&1 == 0 {\n\t\t\tcontinue\n\t\t}\n\t\tYield(v)\n\t\tif g1 {\n\t\t\tbreak\n\t\t}\n\t}\n\treturn\n}\n\n" +
+                head + "\tfor v := range CG@(a, n, g1, g2) {\n\t\tt = (t << 1) ^ v\n\t\tlim++\n\t\tif lim > 7 {\n\t\t\tbreak\n\t\t}\n\t}\n\tfor w := range CP@(b, n, g3) {\n\t\tt = (t << 1) ^ w\n\t\tlim++\n\t\tif lim > 14 {\n\t\t\tbreak\n\t\t}\n\t}\n" + tail)
+    if shape == "loopvar_redeclared_in_body":
+        # the loop variable has a scope of its own: a ':=' of the same name in the body shadows it
+        return head + "\tfor v := range %s {\n\t\tf := func() int { return v }\n\t\tv, w := v*10, v+1\n\t\tt = (t << 1) ^ f() ^ (v << 2) ^ (w << 3)\n\t\tlim++\n\t\tif lim > 4 || (g1 && w > a) {\n\t\t\tbreak\n\t\t}\n\t}\n" % src + tail
+    if shape == "loopvar_shadowed_first_stmt":
+        return head + "\tfor v := range %s {\n\t\tv := v + b\n\t\tt = (t << 1) ^ v\n\t\tlim++\n\t\tif lim > 4 {\n\t\t\tbreak\n\t\t}\n\t}\n" % src + tail
     if shape == "typed_nil_marker":
         # nil as "not opened yet": the conversion Iter[int](nil) is an occurrence of the iterator type too
         return head + "\tvar it Iter[int] = Iter[int](nil)\n\talt := (Iter[int])(nil)\n\tvar zero Iter[int]\n\tif g1 {\n\t\tit = %s\n\t}\n\tif it == nil {\n\t\trt.Emit(rt.EFF, 691)\n\t\tit = %s\n\t}\n\tif alt == nil && zero == nil {\n\t\trt.Emit(rt.EFF, 692)\n\t}\n\tfor v := range it {\n%s\n\t}\n" % (fin, rng.choice(["GC@(a, b)", "GA@(b, n)"]), indent(c06_loop_body(rng, "v"), 2)) + tail
@@ -2013,7 +2023,7 @@ C06_SHAPES = ["range_define", "range_assign", "nested", "pull_then_range", "rang
               "field_reassigned_in_loop", "index_changed_in_loop", "map_entry_reassigned_in_loop", "operand_evaluated_once",
               "first_match_nested", "first_element",
               "assign_to_element_moving_index", "assign_to_field_moving_pointer", "assign_to_deref_moving_pointer", "assign_to_map_entry_moving_key",
-              "typed_nil_marker", "typed_nil_reset"]
+              "typed_nil_marker", "typed_nil_reset", "loopvar_redeclared_in_body", "loopvar_shadowed_first_stmt", "consumer_generator_switch"]
 
 
 def c06_programs(rng, per_shape):
@@ -2094,6 +2104,9 @@ C13_BODIES = [
     ("eta_variadic_literal_no_spread", "f := func(xs ...any) int { return vcount@(xs) }\ng := func(xs ...any) int { return vcount@(xs...) }\nreturn (f(a, b, 1) << 4) ^ g(a, b)"),
     ("hand_written_bind_unstable_callee", "next := func() SEQPKG.Seq[int] { return SEQPKG.Bind[int](a+1, SEQPKG.Normal[int]) }\nit := SEQPKG.Start[int](SEQPKG.Bind[int](a, func() SEQPKG.Seq[int] { return next() }))\nnext = func() SEQPKG.Seq[int] { return SEQPKG.Bind[int](b+2, SEQPKG.Normal[int]) }\nr := 0\nfor it.MoveNext() {\n\tr = r*16 + it.Current()\n}\nreturn r"),
     ("hand_written_bind_method_value_callee", "st := &stage@{}\nit := SEQPKG.Start[int](SEQPKG.Bind[int](a, func() SEQPKG.Seq[int] { return st.rest() }))\nr, k := 0, 0\nfor it.MoveNext() {\n\tr = r*16 + it.Current()\n\tif k < 2 {\n\t\tk++\n\t\tst.more++\n\t\tst.v = b + k\n\t}\n}\nreturn r"),
+    ("deferred_literal_receiver_evaluated_late", "first := &pt@{a, 1}\ncur := first\nfunc() {\n\tdefer func() int { return cur.Add(7) }()\n\tcur = &pt@{b, 2}\n}()\nreturn (first.x << 8) ^ cur.x"),
+    ("deferred_literal_callee_evaluated_late", "r := 0\nh := func() int { r += 1; return r }\nfunc() {\n\tdefer func() int { return h() }()\n\th = func() int { r += 100; return r }\n}()\nreturn r + a"),
+    ("immediate_literal_call", "v := func() int { return dbl@(a) }()\nw := func() int { return fnv@(b) }()\nreturn (v << 4) ^ w"),
     ("closure_capture", "s := 0\nadd := func(d int) { s += d }\nget := func() int { return s }\nadd(a)\nr := get()\nadd(b)\nreturn (r << 4) ^ get()"),
     ("global_state", "cnt@ += a\nr := cnt@\ncnt@ = 0\nreturn r + k@"),
     ("eta_method_expr", "p := pt@{a, b}\nf := func(q pt@) int { return q.Sum() }\nreturn f(p)"),
@@ -2194,6 +2207,8 @@ def c12_injections():
     I.append(("yield_in_switch_init", [("raw", "switch Yield(a + 922); {\ncase g3:\n\tYield(b + 923)\n}")]))
     I.append(("go_yield", [("raw", "go Yield(a + 924)"), Y("b + 925")]))
     I.append(("yield_in_case_expr_call", [("raw", "switch {\ncase func() bool { rt.Emit(rt.EFF, 926); return g3 }():\n\tYield(a + 927)\n}")]))
+    I.append(("yield_in_wrong_signature_literal", [("raw", "emit := func(v int) { Yield(v) }\nemit(a + 993)"), Y("b + 994")]))
+    I.append(("yield_in_wrong_signature_literal_result", [("raw", "emit2 := func(v int) int {\n\tYield(v)\n\treturn v + 1\n}"), Y("emit2(a) + 995")]))
     I.append(("paren_yield", [("raw", "(Yield(a + 990))"), Y("b + 991")]))
     I.append(("paren_yieldfrom", [("raw", "(YieldFrom(H2(a)))"), Y("b + 992")]))
     I.append(("yield_in_closure_called", [("raw", "cf := func() int { return a + 928 }"), Y("cf()")]))
@@ -2363,24 +2378,59 @@ def inject_at(body, inj, rng):
 # C14: interleaving drivers
 
 
-def il_driver(name, k, m, makers):
-    """k iterators (makers[i] = Go expression creating iterator i), each advanced exactly m times:
-    first alone (logs 0..k-1), then fresh instances under a nondeterministic schedule
-    (logs 10..10+k-1); per-iterator logs must be equal and heap footprints disjoint."""
+IL_HELPERS = """func stepI@(it Iter[int]) func() (bool, int) {
+	return func() (bool, int) {
+		if it.MoveNext() {
+			return true, it.Current()
+		}
+		return false, 0
+	}
+}
+
+func stepS@(it Iter[string]) func() (bool, int) {
+	return func() (bool, int) {
+		if it.MoveNext() {
+			return true, len(it.Current()) + 1000
+		}
+		return false, 0
+	}
+}
+
+// a generator with another element type: iterators of different types share no state either
+func GS@(a, n int) (_ Iter[string]) {
+	for i := 0; i < n+2; i++ {
+		rt.Emit(rt.EFF, 770+i)
+		if (a+i)&1 == 0 {
+			Yield("ab")
+		} else {
+			Yield("")
+		}
+	}
+	return
+}
+"""
+
+
+def il_driver(name, k, m, makers, suffix=""):
+    """k iterators (makers[i] = Go expression creating the step function of iterator i, see
+    IL_HELPERS), each advanced exactly m times: first alone (logs 0..k-1), then fresh instances
+    under a nondeterministic schedule (logs 10..10+k-1); per-iterator logs must be equal and heap
+    footprints disjoint."""
+    k = len(makers)
     mk = "\n".join("\t\tcase %d:\n\t\t\treturn %s" % (i, e) for i, e in enumerate(makers))
-    return """func DriveIL_%(name)s() {
+    return """func DriveIL%(suffix)s_%(name)s() {
 	a, b, n := rt.NondetInt(1), rt.NondetInt(2), rt.NondetInt(3)
 	g1, g2, g3 := rt.NondetBool(4), rt.NondetBool(5), rt.NondetBool(6)
 	rt.Assume(n >= -1 && n <= 2)
-	mk := func(i int) Iter[int] {
+	mk := func(i int) func() (bool, int) {
 		switch i {
 %(mk)s
 		}
 		return nil
 	}
-	step := func(it Iter[int]) {
-		if it.MoveNext() {
-			rt.Emit(rt.YIELD, it.Current())
+	step := func(next func() (bool, int)) {
+		if ok, v := next(); ok {
+			rt.Emit(rt.YIELD, v)
 		} else {
 			rt.Emit(rt.ADV_END, 0)
 		}
@@ -2392,7 +2442,7 @@ def il_driver(name, k, m, makers):
 			step(it)
 		}
 	}
-	var its [%(k)d]Iter[int]
+	var its [%(k)d]func() (bool, int)
 	var left [%(k)d]int
 	for i := 0; i < %(k)d; i++ {
 		rt.SetLog(10 + i)
@@ -2427,7 +2477,7 @@ def il_driver(name, k, m, makers):
 		rt.AssertSameLogs(i, 10+i, 1400+i)
 	}
 	rt.AssertDisjointFootprints(1410)
-}""" % {"name": name, "k": k, "m": m, "mk": mk}
+}""" % {"name": name, "k": k, "m": m, "mk": mk, "suffix": suffix}
 
 
 # ---------------------------------------------------------------------------------------------
